@@ -20,6 +20,9 @@ func (fr *Frame) exec(in ssa.Instruction, st *State) error {
 		elem := x.Type().(*types.Pointer).Elem()
 		if fr.heapCell[x] {
 			r := c.newRef("new_" + x.Comment)
+			if privateAlloc(x) {
+				c.privateRefs = append(c.privateRefs, r)
+			}
 			l := c.ptrLVal(r, elem)
 			fr.write(l, st, c.zero(elem))
 			fr.env[x] = &Val{T: []Term{r}}
